@@ -40,6 +40,10 @@ type BusRoles struct {
 	RegisterFn *ssa.Function // (*upcastRegistry).register
 	ApplyFn    *ssa.Function // (*upcastRegistry).apply
 
+	// FilterHelpers: functions of the package that are handed a registration's filter and
+	// answer with a bool (the reflective filter fallback): one event for the automata
+	FilterHelpers map[*ssa.Function]bool
+
 	Missing []string
 }
 
@@ -490,6 +494,34 @@ func DiscoverBus(p *Prog) *BusRoles {
 			}
 			if sig.Params().Len() == 2 && sig.Results().Len() == 3 {
 				r.ApplyFn = f
+			}
+		}
+	}
+	r.FilterHelpers = map[*ssa.Function]bool{}
+	if r.RegT != nil && r.RegFilter != "" {
+		for _, f := range p.FuncsIn(PkgBus) {
+			for _, b := range f.Blocks {
+				for _, in := range b.Instrs {
+					call, ok := in.(*ssa.Call)
+					if !ok {
+						continue
+					}
+					sc := call.Common().StaticCallee()
+					if sc == nil || PkgOf(sc) != PkgBus {
+						continue
+					}
+					if rs := sc.Signature.Results(); rs.Len() != 1 || !isBasicKind(rs.At(0).Type(), types.Bool) {
+						continue
+					}
+					for _, a := range call.Common().Args {
+						if tn, fld, _, ok := fieldLoad(a); ok && tn == r.RegT.Obj().Name() && fld == r.RegFilter {
+							if o := sc.Origin(); o != nil {
+								sc = o
+							}
+							r.FilterHelpers[sc] = true
+						}
+					}
+				}
 			}
 		}
 	}
